@@ -430,10 +430,9 @@ def rule_e(ctx: Ctx) -> None:
                 'or is a reviewed exemption; included/imported schemas share the global maps and their settings.')
 
 
-def rule_f(ctx: Ctx) -> None:
+def rule_f(ctx: Ctx, rule: str = 'C12.f') -> None:
     """The URL that access_control prefix-tests has no dot segments: every local-path exit of normalize_url
     serialises a *normalised* path (`….normalize().as_uri()` / `.as_posix()`)."""
-    rule = 'C12.f'
     f = ctx.idx.func('xmlschema.utils.urls.normalize_url')
     ctx.analysed(f.qualname)
     n = 0
@@ -444,7 +443,8 @@ def rule_f(ctx: Ctx) -> None:
             ok = isinstance(recv, ast.Call) and isinstance(recv.func, ast.Attribute) and recv.func.attr == 'normalize'
             ctx.ob(rule, f'normalize_url: `{text(e)[:60]}` serialises a path whose dot segments were removed', f.loc(e), ok,
                    '' if ok else 'the path is serialised without .normalize(): `<sandbox>/../outside/x.xsd` keeps its `..` and still '
-                   'starts with the sandbox prefix', key=f'normalize_url|normalized|{text(e)[:60]}')
+                   'starts with the sandbox prefix; and `dir/sub/../t.xsd` and `dir/t.xsd` are two URLs for one file, so the already-loaded test '
+                   '(a comparison of normalised URLs) loads the document twice and its globals collide', key=f'normalize_url|normalized|{text(e)[:60]}')
     ctx.floor(rule, 'path serialisations in normalize_url', n, 8)
     # LocationPath.normalize collapses '..' (os.path.normpath semantics)
     lp = ctx.idx.cls('xmlschema.utils.paths.LocationPath')
@@ -456,7 +456,7 @@ def rule_f(ctx: Ctx) -> None:
     rets = [text(r.value) for r in ast.walk(gu.node) if isinstance(r, ast.Return)]
     ok = rets == ['normalize_url(uri, self._base_url)']
     ctx.ob(rule, 'XMLResource.get_url returns the normalised URL', gu.loc(), ok, f'{rets}', key='get_url|normalize')
-    ctx.explain('C12.f: every local-path return of normalize_url serialises `.normalize()`d paths, so the URL that the sandbox '
+    ctx.explain(f'{rule}: every local-path return of normalize_url serialises `.normalize()`d paths, so the URL that the sandbox '
                 'prefix test sees has no `..` segments.')
 
 
@@ -553,10 +553,9 @@ def rule_g(ctx: Ctx, rule: str = 'C12.g') -> None:
                 'schema_class(base_url=…); every call of a chain member from a function owning a base URL must forward it.')
 
 
-def rule_h(ctx: Ctx) -> None:
+def rule_h(ctx: Ctx, rule: str = 'C12.h') -> None:
     """The module-level API builds the instance resource and fetches the schema named by its location hints from the *same*
     options: the function that splits the keyword arguments must leave them in place for the second consumer."""
-    rule = 'C12.h'
     idx = ctx.idx
     doc = idx.module('documents')
     f = doc.functions.get('get_context')
@@ -568,10 +567,11 @@ def rule_h(ctx: Ctx) -> None:
     ok = not muts and not dels
     ctx.ob(rule, 'get_context: the keyword arguments are filtered twice (resource options, schema options) and never consumed', f.loc(muts[0]) if muts else f.loc(), ok,
            '' if ok else f'`{text(muts[0])[:50] if muts else text(dels[0])[:50]}` removes options before the schema-option filter runs: the schema named by the instance\'s '
-           'xsi:schemaLocation is fetched with allow=\'all\' although the caller passed allow=\'none\'/\'sandbox\'', key='get_context|kwargs-not-consumed')
+           'xsi:schemaLocation is fetched with allow=\'all\' although the caller passed allow=\'none\'/\'sandbox\', and parsed with defuse=\'remote\' although the '
+           'caller passed defuse=\'always\'', key='get_context|kwargs-not-consumed')
     # both filters exist and the schema filter covers the access options
-    filt = [text(g.ifs[0].comparators[0]) for n in ast.walk(f.node) if isinstance(n, ast.DictComp) for g in n.generators
-            if g.ifs and isinstance(g.ifs[0], ast.Compare) and isinstance(g.ifs[0].ops[0], ast.In)]
+    filt = sorted({x.id for n in ast.walk(f.node) if isinstance(n, ast.DictComp) for g in n.generators for part in [g.iter, *g.ifs]
+                   for x in ast.walk(part) if isinstance(x, ast.Name) and x.id.endswith('_KWARGS')})
     ok = 'RESOURCE_KWARGS' in filt and 'SCHEMA_KWARGS' in filt
     ctx.ob(rule, 'get_context: one filter for the instance resource, one for the schema', f.loc(), ok, f'{filt}', key='get_context|two-filters', nontrivial=False)
     ss = idx.cls('xmlschema.settings.SchemaSettings')
@@ -579,7 +579,7 @@ def rule_h(ctx: Ctx) -> None:
     ok = all(ss.find_attr(a) is not None for a in need)
     ctx.ob(rule, 'SchemaSettings (source of SCHEMA_KWARGS) carries allow, defuse, base_url and timeout', f'{ss.module.relpath}:{ss.node.lineno}', ok, '',
            key='SchemaSettings|access-options')
-    ctx.explain('C12.h: documents.get_context never mutates **kwargs between its two option filters; the schema-side filter covers the access options.')
+    ctx.explain(f'{rule}: documents.get_context never mutates **kwargs between its two option filters; the schema-side filter covers the access options.')
 
 
 QUOTERS = ('quote', 'quote_plus', 'quote_from_bytes', 'query_quote')
